@@ -157,7 +157,7 @@ def dynamic_part(res, ctx, names):
         if not ctx.mine(idx):
             continue
         base = name[:-9]
-        for k in range(ctx.pick(12, 150)):
+        for k in range(ctx.pick(12, 2000)):
             start = domain.gen_words(rng, base, 'S')
             end = domain.gen_words(rng, base, 'E')
             end[0] = rng.choice((0, 0, 0, 1, 4, 35, 60, 107, 1 << 31, (1 << 64) - 1))
@@ -175,6 +175,30 @@ def dynamic_part(res, ctx, names):
                 res.violation('c17-twin-rendering', f'{base}: {a} vs {name}: {b} on start={start} end={end}',
                               {'name': name, 'start': start, 'end': end})
                 break
+        # words outside the enum a decoder names: whatever happens must happen to both twins alike (the same exception,
+        # or renderings that differ by the suffix only)
+        for idx2, allowed in domain.enum_positions(base).items():
+            outside = [v for v in (11, 39, 46, 47, 86, 89, 106, 200, 1 << 20, (1 << 64) - 1) if v not in allowed][:6]
+            for v in outside:
+                start = domain.gen_words(rng, base, 'S')
+                start[idx2] = v
+                end = [0, 5, 0, 0]
+                outcome = []
+                for nm in (base, name):
+                    try:
+                        outcome.append(('ok', render(nm, start, end)))
+                    except Exception as x:
+                        outcome.append(('raised', type(x).__name__))
+                res.case((name, 'outside-enum', v))
+                res.count('twin_out_of_enum_comparisons')
+                a, b = outcome
+                same = (a[0] == b[0] == 'raised' and a[1] == b[1]) or \
+                       (a[0] == b[0] == 'ok' and len(a[1]) == len(b[1]) == 1 and '_nocancel' in b[1][0]
+                        and b[1][0].replace('_nocancel', '', 1) == a[1][0])
+                if not same:
+                    res.violation('c17-twin-rendering', f'{base} / {name} with word {idx2} = {v} (outside the named enum): '
+                                  f'{a} vs {b}', {'name': name, 'start': start, 'end': end})
+                    break
         res.count('twin_pairs')
 
 
